@@ -266,7 +266,7 @@ pub fn run_scenario(c: &mut Case, sc: &Scenario, opts: RunOpts) -> bool {
 
 /// Fixed, seed-independent cases that reach every gated observation.
 pub fn directed(ctx: &Ctx) {
-    ctx.run_fixed("directed", 400, |c| {
+    ctx.run_fixed("directed", ctx.dn(400), |c| {
         let sc = gen_scenario(&mut c.rng, c.index % 4 == 0);
         run_one(c, &sc, c.index % 3 == 0);
         if c.index == 5 {
